@@ -42,7 +42,7 @@ def run(ctx, pids, quick_edges=14000, walks=(60, 2500), genq=True):
         cfgname = cfgq if (q and os.path.exists(os.path.join(vlib.SPEC, cfgq))) else "%s_gen.cfg" % pid
         behs = ctx.gen_edges("MCPdo", cfgname, timeout=3000)
         if q:
-            behs = common.thin(behs, quick_edges, ctx.seed)
+            behs = common.thin(behs, quick_edges if pid == pids[0] else min(quick_edges, 6000), ctx.seed)
         ctx.replay(behs, pre, observe, ordered=node_check.tick_unordered, label="edges_" + pid)
         w = ctx.gen_walks("MCPdo", "%s_walk.cfg" % pid, num=walks[0] if q else walks[1], depth=45, timeout=2500)
         ctx.replay(w, pre, observe, ordered=node_check.tick_unordered, label="walks_" + pid)
